@@ -485,6 +485,19 @@ def cbOut : CbObs → String
   | .caughtValue ty text => "caught:" ++ strOf ty ++ ":" ++ strOf text
   | .runError name => "throw:" ++ strOf name
 
+
+def hexOfString (s : String) : String := bytesOut (s.toUTF8.toList.map (·.toNat))
+
+def zooTok (s : String) : String := if s.startsWith "!" then (s.drop 1).toString else "s:" ++ hexOfString s
+
+def handleZoo (name : String) : String :=
+  match zooModel.lookup name with
+  | none => "bad-op"
+  | some m =>
+    match Spec.zooSpec.find? (fun e => e.1 = name) with
+    | some (_, sp, region) => reply (zooTok m) (zooTok sp) [region]
+    | none => reply (zooTok m) (zooTok m) []
+
 def handle (ws : List String) : String :=
   match ws with
   | ["num", t, n] => match nt? t, num? n with
@@ -550,6 +563,7 @@ def handle (ws : List String) : String :=
      | none => "bad-op")
   | "view" :: rest => handleView rest
   | "recs" :: rest => handleRecs rest
+  | ["zoo", name] => handleZoo name
   | ["cb", k] => (match cbKind? k with
       | some k => reply (cbOut (callbackOutcome k)) (cbOut (callbackOutcome k)) []
       | none => "bad-op")
